@@ -29,18 +29,18 @@ type Program struct {
 }
 
 type GenCfg struct {
-	MaxStores  int
-	MaxTxns    int
-	MaxOps     int
-	Keys       int
-	Slots      []int
-	Placements []string
-	BigValues  []int // candidate value sizes (0 = short tags only)
-	DupStores  bool
-	Rollbacks  bool
-	Prefix     string
+	MaxStores   int
+	MaxTxns     int
+	MaxOps      int
+	Keys        int
+	Slots       []int
+	Placements  []string
+	BigValues   []int // candidate value sizes (0 = short tags only)
+	DupStores   bool
+	Rollbacks   bool
+	Prefix      string
 	Adversarial bool // store names / descriptions that mention the metadata field names, quotes, braces, unicode
-	Bulk       int // >0: bulk-load programs (ascending keys, Bulk adds per transaction) instead of random ones
+	Bulk        int  // >0: bulk-load programs (ascending keys, Bulk adds per transaction) instead of random ones
 }
 
 var writeOps = []string{"Add", "Add", "AddIfNotExist", "Update", "Upsert", "Upsert", "Remove", "Remove"}
